@@ -598,6 +598,7 @@ def run_recipe_case(rng, case, idx, focus=None):
             except Exception as e:   # noqa
                 eager_exc = (k, e)
                 break
+    forgot = (idx % 5 == 0) and case.get('prop') in ('C08', 'C16', None)
     # ---------------- through the Recipe API (monitors on: nested operations inside bake are watched)
     bake_exc = None
     res = None
@@ -607,6 +608,23 @@ def run_recipe_case(rng, case, idx, focus=None):
     with M.active(case):
         try:
             r, handles = to_recipe(prog['decls'], prog['steps'])
+            if forgot and eager_exc is None:
+                # "forgot to use a declared object": the refused bake must leave the recipe as it was, so that baking
+                # after the missing step has been added equals the eager fold of all steps
+                with M.oracle():
+                    extra = pp.Container('zz_forgot', initial_contents=[(liquids(prog['subs'])[0], '1 mL')])
+                r.uses(extra)
+                handles['zz_forgot'] = extra
+                M.count('C08.rebake')
+                M.bucket('C08/rebake_after_refused_bake')
+                try:
+                    r.bake()
+                    M.violate(['C08', 'C16'], 'BAKE', 'C08:bake_with_unused_declared_object_accepted', {'program': pdesc})
+                except ValueError:
+                    pass
+                r.remove(extra, R.ENZYME)
+                with M.oracle():
+                    eager_states[-1] = dict(eager_states[-1], zz_forgot=extra.remove(R.ENZYME))
             placeholders = {nme: F.fingerprint(o) for nme, o in handles.items()}
             pre_bake = {nme: F.fingerprint(o) for nme, o in handles.items()}
             res = r.bake()
@@ -624,7 +642,7 @@ def run_recipe_case(rng, case, idx, focus=None):
     if reuse and bake_exc is None and eager_exc is None:
         M.note_nontrivial('C08', repr(pdesc)[:3000])
         M.sample('C08', {'program': pdesc, 'result_names': sorted(res)}, cap=3)
-    if res is None or eager_exc is not None:
+    if res is None or eager_exc is not None or forgot:
         return
     conforming = all(same_state(eager_states[-1][nme], res[nme]) is None for nme in res if nme in eager_states[-1])
     # ---------------- ledger from prefix bakes
